@@ -47,7 +47,7 @@ def alphabet(world, h):
 
 def plan(tier):
     W = worlds.curated()
-    names = ["csum-mid", "csum-deep", "csum-two", "csum-two-b", "csum-fan", "csum-toggle", "csum-kids", "csum-fail", "csum-burst"]
+    names = ["csum-mid", "csum-deep", "csum-two", "csum-two-b", "csum-fan", "csum-toggle", "csum-kids", "csum-fail", "csum-burst", "csum-fail-late"]
     if tier == "quick":
         return [(W[n], alphabet, 3, 2) for n in names]
     G = worlds.generated()
